@@ -1041,7 +1041,7 @@ ObsPropose(kind, arg) ==
                    [] kind = "psk" -> [id |-> arg]
                    [] OTHER -> [x |-> 0]
     IN
-    /\ "extsender" \in Features /\ obs.st = "on" /\ kind \in {"add", "rem", "gce", "custom", "psk"}
+    /\ "extsender" \in Features /\ obs.st = "on" /\ kind \in {"add", "rem", "gce", "custom", "psk", "reinit"}
     /\ (kind = "add" => /\ arg \in 1..Len(kps) /\ ~kps[arg].used /\ kps[arg].owner \notin Members(obs.tree)
                         /\ ~\E k \in 1..Len(props) : props[k].kind = "add" /\ props[k].ks = obs.ks)
     /\ (kind = "rem" => /\ arg \in OccupiedLeaves(obs.tree)
@@ -1052,6 +1052,8 @@ ObsPropose(kind, arg) ==
                         /\ ~\E k \in 1..Len(props) : props[k].kind = "gce" /\ props[k].ks = obs.ks)
     /\ (kind = "custom" => "custom" \in Features /\ arg = 0)
     /\ (kind = "psk" => "psk" \in Features /\ arg \in PskIds)
+    /\ (kind = "reinit" => /\ "reinit" \in Features /\ arg = 0
+                           /\ ~\E k \in 1..Len(props) : props[k].kind = "reinit" /\ props[k].by = "observer" /\ props[k].ks = obs.ks)
     /\ NewProp([kind |-> kind, kp |-> IF kind = "add" THEN arg ELSE 0, target |-> IF kind = "rem" THEN arg ELSE 0,
                 by |-> "observer", sender |-> "external", byLeaf |-> NoLeaf, ks |-> obs.ks, epoch |-> obs.epoch, gen |-> 0] @@ extra)
     /\ obs' = [obs EXCEPT !.cache = @ \cup {j}]
@@ -1232,7 +1234,7 @@ SuccNext ==
 ObsNext ==
     \/ \E p \in Parties : ObsJoin(p)
     \/ \E j \in 1..Len(props) : ObsDeliverProposal(j)
-    \/ \E arg \in 0..MaxKps : \E kind \in {"add", "rem", "gce", "custom"} : ObsPropose(kind, arg)
+    \/ \E arg \in 0..MaxKps : \E kind \in {"add", "rem", "gce", "custom", "reinit"} : ObsPropose(kind, arg)
     \/ \E id \in PskIds : ObsPropose("psk", id)
     \/ \E n \in 1..Len(commits) : ObsDeliverCommit(n)
     \/ \E a \in 1..Len(apps) : \E gen \in apps[a].lo..apps[a].hi : ObsDeliverApp(a, gen)
